@@ -25,7 +25,7 @@ ASSUME = ["the independent substitution replaces identifier tokens equal to a pa
           "executable bodies are arithmetic over the parameters, so Python can evaluate the same formula"]
 
 PARAM_POOL = ["pt", "eta", "pt2", "my_pt", "pt_eta", "i_obj", "i_obj1", "i_obj2", "x", "y", "a", "b", "value", "val", "jet", "obj", "t", "tmp", "collection_name", "aggResult2", "arg_1", "phi1", "e"]
-LOOKALIKE = ["my_pt", "pt_eta", "eta2", "xx", "a_b", "valu", "i_obj10", "ptpt", "t2", "tmp_"]
+LOOKALIKE = ["my_pt", "pt_eta", "eta2", "xx", "a_b", "valu", "i_objx", "ptpt", "t2", "tmp_"]
 
 
 def gen_spec(R, idx: int, backend: str, method: bool) -> Dict[str, Any]:
@@ -67,6 +67,13 @@ def gen_spec(R, idx: int, backend: str, method: bool) -> Dict[str, Any]:
         final += f" {R.choice(['+', '-', '*'])} {temps[k]}"
     rtype = R.choice(["double", "double", "int", "float"])
     body_cpp.append(f"{R.choice(['auto', 'double'])} {rname} = {final};")
+    if R.random() < 0.25:
+        # C++ does not care about line breaks: a statement continued on the next line of the same code entry, a trailing newline
+        k = R.randrange(len(body_cpp))
+        m = re.search(r" ([+*-]) ", body_cpp[k])
+        if m:
+            body_cpp[k] = body_cpp[k][:m.end()] + "\n        " + body_cpp[k][m.end():]
+        body_cpp[R.randrange(len(body_cpp))] += "\n"
     name = f"UserF{idx}"
     md: Dict[str, Any] = {"metadata_type": "add_cpp_function", "name": name, "include_files": R.choice([[], ["cmath"], ["vector", "cmath"]]), "arguments": params,
                           "code": body_cpp, "return_type": rtype}
@@ -87,6 +94,7 @@ def py_function(spec: Dict[str, Any]):
     def f(*args, _self_pt=None):
         env = dict(zip(params, [float(a) for a in args]))
         for ln in lines:
+            ln = " ".join(ln.split())
             m = re.match(r"(?:auto|double)\s+(\w+)\s*=\s*(.*);", ln)
             rhs = m.group(2)
             if mobj:
@@ -278,6 +286,18 @@ def run(ctx: Ctx) -> int:
                   f"ds.Select(lambda e: e.{C}('A').Select(lambda j: Doubled(j, 0.5).Select(lambda v: v + 1.0)))",
                   f"ds.Select(lambda e: e.{C}('A').Where(lambda j: GoodTracks(j).Count() > 0).Select(lambda j: GoodTracks(j).First().eta()))"):
             cases.append(diff.Case(backend, q, evs, diff.members_used(s, q) + coll_fns, tag={"builtin": True, "method": False, "collection_function": True}, extra_globals=cg))
+        # ONE method-style function at several call sites with different receivers (nested and sibling lambdas)
+        acc = "->" if backend == "atlas" else "."
+        methf = {"metadata_type": "add_cpp_function", "name": "MethF", "include_files": [], "arguments": ["f"], "code": [f"auto result = obj_x{acc}pt() * f + obj_x{acc}eta();"], "return_type": "double",
+                 "method_object": "obj_x", "instance_object": s["collections"][C]["element"]}
+        for q in (f"ds.Select(lambda e: e.{C}('A').Select(lambda j: e.{C}('B').Where(lambda k: k.MethF(1.0) > j.MethF(0.5)).Count()))",
+                  f"ds.Select(lambda e: (e.{C}('A').Select(lambda j: j.MethF(2.0)), e.{C}('B').Select(lambda k: k.MethF(3.0))))",
+                  f"ds.Select(lambda e: e.{C}('A').Select(lambda j: j.tracks().Select(lambda t: j.MethF(t.pt()))))",
+                  f"ds.Select(lambda e: e.{C}('A').Select(lambda a: a.MethF(1.0) + e.{C}('B').Select(lambda b: b.MethF(a.MethF(2.0))).Sum()))"):
+            c = diff.Case(backend, q, evs, diff.members_used(s, q) + [methf], tag={"builtin": True, "method": True, "method_at_several_sites": True},
+                          extra_globals={"MethF__m": lambda o, f: o.pt() * f + o.eta()})
+            c.ref_query = re.sub(r"\b(\w+)\.MethF\(", r"MethF__m(\1, ", q)  # type: ignore
+            cases.append(c)
         for q in builtins:
             if "getAttributeVectorFloat('vals').Select" in q and any(f["key"] == "object_rows_with_sequence_column" for f in ctx.all_known()):
                 q = q.replace(", j.getAttributeVectorFloat('vals').Select(lambda v: v * 2)", "")
